@@ -44,6 +44,12 @@ type c20Step struct {
 	msg       *c20Msg
 	peer      int  // index into the universe's peers, -1: a fresh peer
 	pipelined bool // send the next step without waiting for this result
+
+	// block > 0: not a message but a new chain tip at this height (msg is
+	// nil): the chain shows its blocks up to it and the gossiper gets the
+	// block epoch. Only used by the future-height histories
+	// (c20_future_test.go).
+	block uint32
 }
 
 type c20Item struct {
@@ -57,6 +63,11 @@ type c20Item struct {
 
 	inBatch  bool // evaluated as part of a premature-update replay
 	behindCA bool // sent right behind a channel announcement, not awaited
+
+	// future-height stash (c20_future_test.go): the gossiper's private copy
+	// of the message that waits for block futHeight.
+	future    *networkMsg
+	futHeight uint32
 }
 
 func (it *c20Item) describe() string {
@@ -91,6 +102,12 @@ type c20Run struct {
 	nFreshPeer int
 
 	before *c20Snap // snapshot taken before the current group
+
+	// future-height mode: best is the model's chain tip, stash the
+	// messages the gossiper keeps for a later block.
+	futureOn bool
+	best     uint32
+	stash    []*c20Item
 
 	labels       map[string]int
 	inconclusive string
@@ -181,8 +198,17 @@ func c20CanPipeline(a, b *c20Msg) bool {
 // because a result did not arrive within the (generous) deadline.
 func (r *c20Run) exec(steps []c20Step) bool {
 	for i := 0; i < len(steps); {
+		if steps[i].block > 0 {
+			if !r.execBlock(steps[i].block) {
+				return false
+			}
+			i++
+
+			continue
+		}
 		group := []c20Step{steps[i]}
 		if steps[i].pipelined && i+1 < len(steps) &&
+			steps[i+1].block == 0 &&
 			c20CanPipeline(steps[i].msg, steps[i+1].msg) {
 
 			group = append(group, steps[i+1])
@@ -225,6 +251,9 @@ func (r *c20Run) execGroup(steps []c20Step) bool {
 			r.inconclusive = "no result for " + it.describe()
 			return false
 		}
+		if r.futureOn {
+			r.noteFuture(it, items)
+		}
 
 		// A channel announcement that put a new channel into the graph
 		// replays the premature updates parked for its scid; their
@@ -260,7 +289,9 @@ func (r *c20Run) execGroup(steps []c20Step) bool {
 
 	all := append(append([]*c20Item(nil), items...), released...)
 	for i, it := range items {
-		if it.inBatch {
+		if it.inBatch || it.future != nil {
+			// (a message kept for a later block must not have
+			// changed anything: nothing is marked as explained)
 			continue
 		}
 		switch it.msg.kind {
